@@ -5,6 +5,7 @@ import QR.Proofs.ReadBack
 import QR.Props.C03
 import QR.Props.C09
 import QR.Proofs.SourceTie
+import QR.Proofs.Pinned
 /-
 C05 - function patterns, geometry and data placement of every symbol.
 Finite part: alignment table = Annex E closed form, mask functions = ISO Table 10.
@@ -227,5 +228,9 @@ theorem C05_source_structure :
       "self.setup_position_probe_pattern", "self.setup_position_adjust_pattern", "self.setup_timing_pattern",
       "self.setup_type_info", "self.setup_type_number", "util.create_data", "self.map_data"] :=
   QR.SourceTie.structure_eq.1
+
+/-- the Python functions this property's model mirrors have, in /repo's current working tree, exactly the normalised
+    ASTs the model was written and validated against (fingerprints regenerated by T1 on every run) -/
+theorem C05_source_fingerprints : QR.Gen.fp_C05 = QR.Pinned.fp_C05 := by decide
 
 end QR.Props
